@@ -23,8 +23,26 @@ def build(res, tier, seed, features, with_setters=False, shapes_list=None, profi
 
 # ------------------------------------------------------------------ requests
 
+COUNTS = [0, 1, 2, 3, 254, 255, 256, 257, 300, 511, 512, 600]
+
+
 def pair_classes(sh, rnd):
     a = shapes.gen_value(sh, rnd)
+    # multiplicity class: one item of a duplicate-capable unordered collection changes its count across the
+    # Single / Few (2..=255) / Many (>= 256) boundaries in either direction (every change variant, also on the wire)
+    if sh['t'] == 'struct':
+        cands = [i for i, f in enumerate(sh['fields']) if f['k'] == 'unord' and f['cont'] not in ('HashSet', 'BTreeSet')]
+        if cands and rnd.random() < 0.12:
+            i = rnd.choice(cands)
+            others = [x for x in a[i + 1][1:] if x != 5]
+            ca, cb = rnd.choice(COUNTS), rnd.choice(COUNTS)
+            a = list(a); a[i + 1] = ['l'] + others + [5] * ca
+            b = shapes.mutate_value(sh, a, rnd, 0.15); b = list(b)
+            ob = list(others)
+            if rnd.random() < 0.3 and ob: ob.pop()
+            b[i + 1] = ['l'] + [5] * cb + ob
+            f = shapes.follower_of(sh, a, rnd) if rnd.random() < 0.7 else a
+            return a, b, f, 'multiplicity'
     r = rnd.random()
     if r < 0.30:
         b = shapes.gen_value(sh, rnd); cls = 'random'
